@@ -12,48 +12,81 @@
 (* and Merkle tree).  Time is a tick counter; a backend root carries a     *)
 (* nanosecond timestamp (tick, remainder) which the front end must         *)
 (* truncate to the tick (milliseconds in the implementation).              *)
+(*                                                                         *)
+(* Histories, faults, schedules.  One log is served by several front end   *)
+(* instances (FrontEnds) over the same backend and the same key; each has  *)
+(* its own clock, which may be set to ANY value (forward, backward, behind *)
+(* or ahead of the other instance and of the backend's clock), and its own *)
+(* memory of the last tree head it signed.  Every request names the        *)
+(* instance that serves it and what goes wrong while it is served: the log *)
+(* signer fails (an HSM / KMS that is transiently unavailable), the        *)
+(* backend refuses the call, or the backend performs the call and its      *)
+(* reply is lost.  A failed request may change the backend (a lost reply)  *)
+(* but leaves nothing in the front end that a later request is served      *)
+(* from.                                                                   *)
 (***************************************************************************)
 EXTENDS Integers, Sequences, FiniteSets, TLC
 
 CONSTANTS
-  Certs,       \* leaf certificates that may be submitted
-  Precerts,    \* the subset that are precertificates
-  MaxClock,    \* the clock runs 0..MaxClock
-  MaxTree      \* sequencing stops at this tree size
+  Certs,           \* leaf certificates that may be submitted
+  Precerts,        \* the subset that are precertificates
+  MaxClock,        \* clocks run over 0..MaxClock
+  MaxTree,         \* sequencing stops at this tree size
+  FrontEnds,       \* front end instances of the one log
+  CacheWriteFirst  \* FALSE: the specification.  TRUE: the ordering defect "remember the new tree head as signed
+                   \* before the signer has answered", kept so that TLC can show STHVerifies is not vacuous
 
 None == -1   \* (TLC cannot compare a string with a number)
 Kind(c) == IF c \in Precerts THEN "precert" ELSE "x509"
 Endpoints == {"add-chain", "add-pre-chain"}
 Rems == {0, 999999}   \* sub-millisecond remainder classes of a root timestamp
 
+\* what can go wrong while one request is served
+RpcFaults == {"unavailable", "deadline", "exhausted", "internal"}   \* the backend refuses the call with this gRPC condition
+ReadFaults == {"none"} \cup RpcFaults
+STHFaults == {"none", "sign"} \cup RpcFaults                         \* "sign": the log signer returns an error
+AddFaults == {"none", "sign", "lostReply"} \cup RpcFaults            \* "lostReply": the backend stored the leaf, the reply timed out
+FaultStatus(x) == CASE x = "unavailable" -> 503
+                    [] x \in {"deadline", "lostReply"} -> 504
+                    [] x = "exhausted" -> 429
+                    [] OTHER -> 500
+
 VARIABLES
-  now,      \* clock tick
+  now,      \* the backend's clock tick (stamps roots)
+  clk,      \* [FrontEnds -> tick]: each front end's own clock (stamps fresh submissions)
   stored,   \* [Certs -> tick or None]: the backend's de-duplication table (leaf by identity hash)
   queue,    \* Seq(Certs): queued, not yet integrated
   tree,     \* Seq(Certs): integrated leaves, append-only
   rootTs,   \* [tick, rem]: timestamp of the published root (nanoseconds in the implementation)
+  sigc,     \* [FrontEnds -> [input, sig]]: the tree head a front end signed last and the signature it got for it
   issued,   \* set of [cert, ts]: SCTs handed out (history)
-  sths,     \* set of [size, ts]: STHs served (history)
+  sths,     \* set of [size, ts, sig]: STHs served (history); sig = the tree head the signature was made over
   roots,    \* set of [size, tick]: roots the backend published (history)
   hist, last
 
 bvars == <<now, stored, queue, tree, rootTs>>
-vars == <<now, stored, queue, tree, rootTs, issued, sths, roots, hist, last>>
+vars == <<now, clk, stored, queue, tree, rootTs, sigc, issued, sths, roots, hist, last>>
 
 Size == Len(tree)
 IndexOf(c) == CHOOSE i \in 1..Len(tree) : tree[i] = c      \* 1-based; only when c is in the tree
 InTree(c) == \E i \in 1..Len(tree) : tree[i] = c
 Entry(i) == [cert |-> tree[i], ts |-> stored[tree[i]]]     \* the stored log entry at 0-based index i-1
 
-Step(op, args, reply) == [op |-> op, args |-> args, reply |-> reply, pre |-> [size |-> Size, queued |-> Len(queue), now |-> now]]
+NoHead == [size |-> None, ts |-> None]
+TreeHead == [size |-> Size, ts |-> rootTs.tick]                \* the tree head an STH must carry and be signed over
+
+Step(op, args, reply) == [op |-> op, args |-> args, reply |-> reply,
+                          pre |-> [size |-> Size, queued |-> Len(queue), now |-> now, clk |-> clk]]
 Record(s) == /\ last' = s
              /\ hist' = Append(hist, s)
 
 Init == /\ now = 0
+        /\ clk = [f \in FrontEnds |-> 0]
         /\ stored = [c \in Certs |-> None]
         /\ queue = <<>>
         /\ tree = <<>>
         /\ rootTs = [tick |-> 0, rem |-> 0]
+        /\ sigc = [f \in FrontEnds |-> [input |-> NoHead, sig |-> NoHead]]
         /\ issued = {}
         /\ sths = {}
         /\ roots = {[size |-> 0, tick |-> 0]}
@@ -63,8 +96,17 @@ Init == /\ now = 0
 (* ---------------- environment ---------------- *)
 Tick == /\ now < MaxClock
         /\ now' = now + 1
-        /\ UNCHANGED <<stored, queue, tree, rootTs, issued, sths, roots>>
+        /\ UNCHANGED <<clk, stored, queue, tree, rootTs, sigc, issued, sths, roots>>
         /\ Record(Step("Tick", [x |-> 0], [status |-> 0]))
+
+\* a front end's clock is set: it runs on, is stepped back (NTP, a VM restored from a snapshot), or simply
+\* differs from the clock of the instance that served an earlier request
+ClockSet(f, t) ==
+  /\ t \in 0..MaxClock
+  /\ t # clk[f]
+  /\ clk' = [clk EXCEPT ![f] = t]
+  /\ UNCHANGED <<now, stored, queue, tree, rootTs, sigc, issued, sths, roots>>
+  /\ Record(Step("ClockSet", [fe |-> f, t |-> t], [status |-> 0]))
 
 \* the backend integrates the first k queued leaves and publishes a root stamped with its clock
 Sequence(k, rem) ==
@@ -74,7 +116,7 @@ Sequence(k, rem) ==
   /\ queue' = SubSeq(queue, k + 1, Len(queue))
   /\ rootTs' = [tick |-> now, rem |-> rem]
   /\ roots' = roots \cup {[size |-> Len(tree) + k, tick |-> now]}
-  /\ UNCHANGED <<now, stored, issued, sths>>
+  /\ UNCHANGED <<now, clk, stored, sigc, issued, sths>>
   /\ Record(Step("Sequence", [k |-> k, rem |-> rem], [status |-> 0]))
 
 \* the backend re-issues its root for an unchanged tree with a fresh timestamp (Trillian signs a new root
@@ -83,79 +125,112 @@ Resign(rem) ==
   /\ rootTs.tick < now
   /\ rootTs' = [tick |-> now, rem |-> rem]
   /\ roots' = roots \cup {[size |-> Len(tree), tick |-> now]}
-  /\ UNCHANGED <<now, stored, queue, tree, issued, sths>>
+  /\ UNCHANGED <<now, clk, stored, queue, tree, sigc, issued, sths>>
   /\ Record(Step("Resign", [rem |-> rem], [status |-> 0]))
 
 (* ---------------- submission (C01) ---------------- *)
-AddChain(c, ep) ==
+\* A fresh submission is stamped with the clock of the front end that serves it; a duplicate repeats the stored
+\* timestamp WHATEVER that front end's clock says (DupIgnoresClock).  The leaf reaches the backend unless the
+\* call is refused; an SCT exists only if the backend answered and the signer signed (SCTOnlyOn200).
+AddChain(c, ep, f, flt) ==
   LET matches == (ep = "add-pre-chain") = (Kind(c) = "precert")
-      ts == IF stored[c] # None THEN stored[c] ELSE now     \* a duplicate repeats the stored timestamp
-  IN IF ~matches
-     THEN /\ UNCHANGED <<now, stored, queue, tree, rootTs, issued, sths, roots>>
-          /\ Record(Step("AddChain", [cert |-> c, ep |-> ep], [status |-> 400]))
-     ELSE /\ stored' = [stored EXCEPT ![c] = ts]
-          /\ queue' = IF stored[c] = None THEN Append(queue, c) ELSE queue
-          /\ issued' = issued \cup {[cert |-> c, ts |-> ts]}
-          /\ UNCHANGED <<now, tree, rootTs, sths, roots>>
-          /\ Record(Step("AddChain", [cert |-> c, ep |-> ep],
-                         [status |-> 200, ts |-> ts, dup |-> stored[c] # None]))
+      dup == stored[c] # None
+      ts == IF dup THEN stored[c] ELSE clk[f]
+      reaches == matches /\ flt \notin RpcFaults         \* the backend has the leaf (new or already)
+      status == IF ~matches THEN 400 ELSE IF flt = "none" THEN 200 ELSE FaultStatus(flt)
+  IN /\ stored' = IF reaches THEN [stored EXCEPT ![c] = ts] ELSE stored
+     /\ queue' = IF reaches /\ ~dup THEN Append(queue, c) ELSE queue
+     /\ issued' = IF status = 200 THEN issued \cup {[cert |-> c, ts |-> ts]} ELSE issued
+     /\ UNCHANGED <<now, clk, tree, rootTs, sigc, sths, roots>>
+     /\ Record(Step("AddChain", [cert |-> c, ep |-> ep, fe |-> f, fault |-> flt],
+                    IF status = 200 THEN [status |-> 200, ts |-> ts, dup |-> dup]
+                    ELSE [status |-> status, ts |-> None, dup |-> dup]))
 
 (* ---------------- reads (C06, C07) ---------------- *)
-GetSTH ==
-  /\ sths' = sths \cup {[size |-> Size, ts |-> rootTs.tick]}
-  /\ UNCHANGED <<now, stored, queue, tree, rootTs, issued, roots>>
-  /\ Record(Step("GetSTH", [x |-> 0], [status |-> 200, size |-> Size, ts |-> rootTs.tick]))
+\* get-sth fetches the backend's root and signs the tree head, unless it is the head this front end signed last
+\* (SignedHeadNeedsNoSigner: the remembered signature is served and the signer is not consulted).  A refused
+\* backend call or a failing signer gives an error and changes nothing (FailedRequestLeavesNothing).
+GetSTH(f, flt) ==
+  LET hit == sigc[f].input = TreeHead
+  IN IF flt \in RpcFaults
+     THEN /\ UNCHANGED <<now, clk, stored, queue, tree, rootTs, sigc, issued, sths, roots>>
+          /\ Record(Step("GetSTH", [fe |-> f, fault |-> flt], [status |-> FaultStatus(flt), size |-> None, ts |-> None, sig |-> NoHead]))
+     ELSE IF hit
+     THEN /\ sths' = sths \cup {[size |-> TreeHead.size, ts |-> TreeHead.ts, sig |-> sigc[f].sig]}
+          /\ UNCHANGED <<now, clk, stored, queue, tree, rootTs, sigc, issued, roots>>
+          /\ Record(Step("GetSTH", [fe |-> f, fault |-> flt], [status |-> 200, size |-> Size, ts |-> rootTs.tick, sig |-> sigc[f].sig]))
+     ELSE IF flt = "sign"
+     THEN /\ sigc' = IF CacheWriteFirst THEN [sigc EXCEPT ![f].input = TreeHead] ELSE sigc
+          /\ UNCHANGED <<now, clk, stored, queue, tree, rootTs, issued, sths, roots>>
+          /\ Record(Step("GetSTH", [fe |-> f, fault |-> flt], [status |-> 500, size |-> None, ts |-> None, sig |-> NoHead]))
+     ELSE /\ sigc' = [sigc EXCEPT ![f] = [input |-> TreeHead, sig |-> TreeHead]]
+          /\ sths' = sths \cup {[size |-> TreeHead.size, ts |-> TreeHead.ts, sig |-> TreeHead]}
+          /\ UNCHANGED <<now, clk, stored, queue, tree, rootTs, issued, roots>>
+          /\ Record(Step("GetSTH", [fe |-> f, fault |-> flt], [status |-> 200, size |-> Size, ts |-> rootTs.tick, sig |-> TreeHead]))
+
+\* a read that reaches the backend while the backend refuses the call answers the fault's status, whatever it
+\* would have answered otherwise; a read answered without the backend is not affected by the state of the backend
+Faulted(flt, reaches, reply) == IF reaches /\ flt \in RpcFaults THEN [status |-> FaultStatus(flt)] ELSE reply
 
 \* first = 0 is answered with an empty proof without consulting the backend
-GetConsistency(f, s) ==
+ConsistencyReaches(f, s) == f <= s /\ f > 0
+GetConsistency(f, s, fe, flt) ==
   LET reply == IF f > s THEN [status |-> 400]
                ELSE IF f = 0 THEN [status |-> 200, proof |-> "empty"]
                ELSE IF s > Size THEN [status |-> 400]
                ELSE [status |-> 200, proof |-> "cons"]       \* the consistency proof between prefixes f and s
-  IN /\ UNCHANGED <<now, stored, queue, tree, rootTs, issued, sths, roots>>
-     /\ Record(Step("GetConsistency", [first |-> f, second |-> s], reply))
+  IN /\ UNCHANGED <<now, clk, stored, queue, tree, rootTs, sigc, issued, sths, roots>>
+     /\ Record(Step("GetConsistency", [first |-> f, second |-> s, fe |-> fe, fault |-> flt],
+                    Faulted(flt, ConsistencyReaches(f, s), reply)))
 
 \* the hash is the one a client computes from certificate c and an SCT with timestamp t
-GetProofByHash(c, t, n) ==
+ProofByHashReaches(n) == n >= 1
+GetProofByHash(c, t, n, fe, flt) ==
   LET reply == IF n < 1 THEN [status |-> 400]
                ELSE IF n > Size THEN [status |-> 404]
                ELSE IF InTree(c) /\ stored[c] = t /\ IndexOf(c) <= n
                     THEN [status |-> 200, index |-> IndexOf(c) - 1]
                     ELSE [status |-> 404]
-  IN /\ UNCHANGED <<now, stored, queue, tree, rootTs, issued, sths, roots>>
-     /\ Record(Step("GetProofByHash", [cert |-> c, ts |-> t, size |-> n], reply))
+  IN /\ UNCHANGED <<now, clk, stored, queue, tree, rootTs, sigc, issued, sths, roots>>
+     /\ Record(Step("GetProofByHash", [cert |-> c, ts |-> t, size |-> n, fe |-> fe, fault |-> flt],
+                    Faulted(flt, ProofByHashReaches(n), reply)))
 
-GetEntries(s, e) ==
+EntriesReaches(s, e) == s <= e
+GetEntries(s, e, fe, flt) ==
   LET reply == IF s > e THEN [status |-> 400]
                ELSE IF s >= Size THEN [status |-> 400]
                ELSE [status |-> 200,
                      entries |-> [i \in 1..((IF e < Size THEN e ELSE Size - 1) - s + 1) |-> Entry(s + i)]]
-  IN /\ UNCHANGED <<now, stored, queue, tree, rootTs, issued, sths, roots>>
-     /\ Record(Step("GetEntries", [start |-> s, end |-> e], reply))
+  IN /\ UNCHANGED <<now, clk, stored, queue, tree, rootTs, sigc, issued, sths, roots>>
+     /\ Record(Step("GetEntries", [start |-> s, end |-> e, fe |-> fe, fault |-> flt],
+                    Faulted(flt, EntriesReaches(s, e), reply)))
 
-GetEntryAndProof(i, n) ==
+EntryAndProofReaches(i, n) == ~(n < 1 \/ i >= n)
+GetEntryAndProof(i, n, fe, flt) ==
   LET reply == IF n < 1 \/ i >= n THEN [status |-> 400]
                ELSE IF n > Size THEN [status |-> 400]
                ELSE [status |-> 200, entry |-> Entry(i + 1)]
-  IN /\ UNCHANGED <<now, stored, queue, tree, rootTs, issued, sths, roots>>
-     /\ Record(Step("GetEntryAndProof", [index |-> i, size |-> n], reply))
+  IN /\ UNCHANGED <<now, clk, stored, queue, tree, rootTs, sigc, issued, sths, roots>>
+     /\ Record(Step("GetEntryAndProof", [index |-> i, size |-> n, fe |-> fe, fault |-> flt],
+                    Faulted(flt, EntryAndProofReaches(i, n), reply)))
 
-GetRoots ==
-  /\ UNCHANGED <<now, stored, queue, tree, rootTs, issued, sths, roots>>
-  /\ Record(Step("GetRoots", [x |-> 0], [status |-> 200]))
+GetRoots(fe) ==
+  /\ UNCHANGED <<now, clk, stored, queue, tree, rootTs, sigc, issued, sths, roots>>
+  /\ Record(Step("GetRoots", [fe |-> fe, fault |-> "none"], [status |-> 200]))
 
 Sizes == 0..(MaxTree + 1)
 Next ==
   \/ Tick
+  \/ \E f \in FrontEnds, t \in 0..MaxClock : ClockSet(f, t)
   \/ \E k \in 1..MaxTree, r \in Rems : Sequence(k, r)
   \/ \E r \in Rems : Resign(r)
-  \/ \E c \in Certs, ep \in Endpoints : AddChain(c, ep)
-  \/ GetSTH
-  \/ \E f \in Sizes, s \in Sizes : GetConsistency(f, s)
-  \/ \E c \in Certs, t \in 0..MaxClock, n \in Sizes : GetProofByHash(c, t, n)
-  \/ \E s \in Sizes, e \in Sizes : GetEntries(s, e)
-  \/ \E i \in Sizes, n \in Sizes : GetEntryAndProof(i, n)
-  \/ GetRoots
+  \/ \E c \in Certs, ep \in Endpoints, f \in FrontEnds, x \in AddFaults : AddChain(c, ep, f, x)
+  \/ \E f \in FrontEnds, x \in STHFaults : GetSTH(f, x)
+  \/ \E f \in Sizes, s \in Sizes, fe \in FrontEnds, x \in ReadFaults : GetConsistency(f, s, fe, x)
+  \/ \E c \in Certs, t \in 0..MaxClock, n \in Sizes, fe \in FrontEnds, x \in ReadFaults : GetProofByHash(c, t, n, fe, x)
+  \/ \E s \in Sizes, e \in Sizes, fe \in FrontEnds, x \in ReadFaults : GetEntries(s, e, fe, x)
+  \/ \E i \in Sizes, n \in Sizes, fe \in FrontEnds, x \in ReadFaults : GetEntryAndProof(i, n, fe, x)
+  \/ \E fe \in FrontEnds : GetRoots(fe)
 
 Spec == Init /\ [][Next]_vars
 
@@ -163,6 +238,7 @@ Spec == Init /\ [][Next]_vars
 IsPrefix(a, b) == Len(a) <= Len(b) /\ \A i \in 1..Len(a) : a[i] = b[i]
 
 TypeOK == /\ now \in 0..MaxClock
+          /\ clk \in [FrontEnds -> 0..MaxClock]
           /\ \A c \in Certs : stored[c] \in (0..MaxClock) \cup {None}
           /\ Len(tree) <= MaxTree
 
@@ -172,11 +248,38 @@ AppendOnly == [][IsPrefix(tree, tree')]_vars
 \* C06: an STH reports the backend's tree size and its timestamp truncated to the tick
 STHFaithful == \A s \in sths : \E r \in roots : r.size = s.size /\ r.tick = s.ts
 
+\* C06: every STH served verifies: its signature was made over the tree head it carries - also after requests that
+\* failed at the signer or at the backend, on every front end
+STHVerifies == \A s \in sths : s.sig = [size |-> s.size, ts |-> s.ts]
+
+\* the same two, said of the step that serves the STH (so that an exhaustive check need not carry the histories):
+\* it carries the backend's tree head as it is when the request is served and a signature over exactly that head
+STHStep == [][(hist' # hist /\ last'.op = "GetSTH" /\ last'.reply.status = 200)
+                => /\ last'.reply.size = Size /\ last'.reply.ts = rootTs.tick
+                   /\ last'.reply.sig = [size |-> last'.reply.size, ts |-> last'.reply.ts]
+                   /\ [size |-> Size, tick |-> rootTs.tick] \in roots]_vars
+
+\* what a front end remembers as signed is signed (the inductive reason for STHVerifies)
+SignedHeadCoherent == \A f \in FrontEnds : sigc[f].sig = sigc[f].input
+
 \* C01: every SCT for the same certificate carries the same (the first) timestamp
 DupStable == \A a, b \in issued : a.cert = b.cert => a.ts = b.ts
 
 \* C01/C06: the stored entry of an issued SCT is (that certificate, that timestamp)
 SCTBindsStored == \A x \in issued : stored[x.cert] = x.ts
+
+\* C01: the backend never re-stamps an entry, and the SCT of a duplicate carries the stored timestamp although the
+\* clock of the front end that serves it may read anything (earlier than, equal to, later than the stored one)
+StoredNeverRestamped == [][\A c \in Certs : stored[c] # None => stored'[c] = stored[c]]_vars
+DupIgnoresClock == [][(last'.op = "AddChain" /\ last'.reply.status = 200 /\ last'.reply.dup)
+                        => last'.reply.ts = stored[last'.args.cert]]_vars
+
+\* C08: an SCT is handed out only by a submission that answers 200
+SCTOnlyOn200 == [][issued' # issued => (last'.op = "AddChain" /\ last'.reply.status = 200)]_vars
+
+\* C06/C08: a request that did not answer 200 leaves nothing in a front end (FailedRequestLeavesNothing)
+FailedRequestLeavesNothing ==
+  [][(hist' # hist /\ last'.op \notin {"Init", "End"} /\ last'.reply.status \notin {0, 200}) => sigc' = sigc]_vars
 
 \* C06: once sequenced, the certificate of an issued SCT sits at exactly one index
 SingleIndex == \A x \in issued : InTree(x.cert) =>
